@@ -245,7 +245,11 @@ impl Tokenizer<'_> {
                 Ok(())
             }
 
-            '\n' => Err(KikiErr::Lex(current_index, Some(current))),
+            '\n' => {
+                // A wrong kind of right bracket earlier on the line comes first.
+                self.assert_outer_attribute_brackets_match(start, end)?;
+                Err(KikiErr::Lex(current_index, Some(current)))
+            }
 
             _ => {
                 self.state =
